@@ -12,7 +12,7 @@ from __future__ import annotations
 
 import itertools
 
-from .lang import B, C, I, N, O, S, Cls, Func, Prog, seq
+from .lang import B, C, I, N, O, S, Cls, Func, Prog, c3, seq
 
 INT, STR, BOOL, NONE, OBJ = (I,), (S,), (B,), (N,), (O,)
 
@@ -129,9 +129,19 @@ class Gen:
         self.h = Hier(classes)
         meth_names = [0, 1, 2, 3]
         for c in range(n):
-            base = r.randrange(c) if c > 0 and r.random() < 0.65 else None
-            cd = Cls(base, [], [], [], [])
-            cd.mro = [c] + (classes[base].mro if base is not None else [])
+            bases = [r.randrange(c)] if c > 0 and r.random() < 0.65 else []
+            if bases and c >= 2 and r.random() < 0.35:
+                # multiple inheritance: a second base that is not related to the first
+                b1 = bases[0]
+                cands = [b for b in range(c) if b != b1 and b not in classes[b1].mro and b1 not in classes[b].mro]
+                if cands:
+                    bases = sorted([b1, r.choice(cands)], reverse=r.random() < 0.5)
+            cd = Cls(bases, [], [], [], [])
+            rest = c3([classes[b].mro for b in bases], bases)
+            if rest is None:
+                cd.bases = bases[:1]
+                rest = list(classes[bases[0]].mro)
+            cd.mro = [c] + rest
             classes.append(cd)
         for c, cd in enumerate(classes):
             for _ in range(r.choice([0, 1, 1, 2, 2, 3])):
@@ -144,6 +154,45 @@ class Gen:
                 # non-optional class-typed attributes only point to earlier classes, so that instances can be built
                 t = self.rand_ty(n, nonopt_below=c, allow_obj=False)
                 cd.attrs.append((f, t))
+        # method signatures (an override starts from the definition the class would inherit)
+        for c, cd in enumerate(classes):
+            inherited = {}
+            for k in cd.mro[1:]:
+                for m, fd in classes[k].methods:
+                    inherited.setdefault(m, fd)
+            for m in r.sample(meth_names, r.choice([0, 1, 1, 2])):
+                if m in inherited:
+                    sup = inherited[m]
+                    params = [self.widen(t) if r.random() < 0.3 else t for t in sup.params]
+                    ret = self.narrow_ret(sup.ret) if r.random() < 0.3 else sup.ret
+                    self.stat("override")
+                else:
+                    params = [self.rand_ty(n) for _ in range(r.choice([0, 1, 1, 2]))]
+                    ret = r.choice([NONE, INT, STR, BOOL, self.rand_ty(n)])
+                fd = Func(params, [], ret, None)
+                cd.methods.append((m, fd))
+        # multiple inheritance must be compatible (mypy: check_multiple_inheritance + check_method_override against
+        # every class of the MRO); where it is not, the second base is dropped
+        for _ in range(n + 1):
+            bad = [c for c, cd in enumerate(classes) if len(cd.bases) > 1 and not self.mi_compatible(c)]
+            if not bad:
+                break
+            classes[bad[0]].bases = classes[bad[0]].bases[:1]
+            for c, cd in enumerate(classes):
+                rest = c3([classes[b].mro for b in cd.bases], cd.bases)
+                if rest is None:
+                    cd.bases = cd.bases[:1]
+                    rest = list(classes[cd.bases[0]].mro)
+                cd.mro = [c] + rest
+        for cd in classes:
+            if len(cd.bases) > 1:
+                self.stat("multiple-inheritance")
+        # an own method must fit every definition in the MRO tail, an own attribute must be new
+        for c, cd in enumerate(classes):
+            tail = cd.mro[1:]
+            cd.attrs = [(f, t) for f, t in cd.attrs if not any(f == g for k in tail for g, _ in classes[k].attrs)]
+            cd.methods = [(m, fd) for m, fd in cd.methods
+                          if all(self.override_ok(fd, fd2) for k in tail for m2, fd2 in classes[k].methods if m2 == m)]
         # __init__: one parameter per attribute (sometimes a constant instead); all signatures first,
         # then the constants (which may construct instances of any class)
         plans = []
@@ -159,24 +208,35 @@ class Gen:
         for c, cd in enumerate(classes):
             for f, t, i in plans[c]:
                 cd.init_assigns.append((f, ("var", i) if i is not None else self.const_of(t, c)))
-        # methods
-        for c, cd in enumerate(classes):
-            inherited = dict(self.h.all_meths(cd.base)) if cd.base is not None else {}
-            for m in r.sample(meth_names, r.choice([0, 1, 1, 2])):
-                if m in inherited:
-                    sup = inherited[m]
-                    params = [self.widen(t) if r.random() < 0.3 else t for t in sup.params]
-                    ret = self.narrow_ret(sup.ret) if r.random() < 0.3 else sup.ret
-                    self.stat("override")
-                else:
-                    params = [self.rand_ty(n) for _ in range(r.choice([0, 1, 1, 2]))]
-                    ret = r.choice([NONE, INT, STR, BOOL, self.rand_ty(n)])
-                fd = Func(params, [], ret, None)
-                cd.methods.append((m, fd))
         for c, cd in enumerate(classes):
             for m, fd in cd.methods:
                 self.gen_body(fd, self_cls=c, callable_funcs=[], simple=True)
         return classes
+
+    def override_ok(self, sub: Func, sup: Func) -> bool:
+        return (len(sub.params) == len(sup.params) and all(self.h.sub_ty(b, a) for a, b in zip(sub.params, sup.params))
+                and self.h.sub_ty(sub.ret, sup.ret))
+
+    def mi_compatible(self, c) -> bool:
+        """the first class of mro[1:] defining a name against every later one that is not among its ancestors:
+        methods must override compatibly, attributes must have the same type"""
+        classes = self.h.classes
+        tail = classes[c].mro[1:]
+        names_m = {m for k in tail for m, _ in classes[k].methods}
+        for m in names_m:
+            defs = [(k, fd) for k in tail for m2, fd in classes[k].methods if m2 == m]
+            k0, fd0 = defs[0]
+            for k2, fd2 in defs[1:]:
+                if k2 not in classes[k0].mro and not self.override_ok(fd0, fd2):
+                    return False
+        names_a = {f for k in tail for f, _ in classes[k].attrs}
+        for f in names_a:
+            defs = [(k, t) for k in tail for f2, t in classes[k].attrs if f2 == f]
+            k0, t0 = defs[0]
+            for k2, t2 in defs[1:]:
+                if k2 not in classes[k0].mro and t0 != t2:
+                    return False
+        return True
 
     def widen(self, t):
         if N not in t and O not in t:
@@ -420,6 +480,16 @@ class Gen:
                 no.append(a)
         return self.h.simp(yes), self.h.simp(no)
 
+    def drops_inhabited(self, t, c) -> bool:
+        """isinstance(x, K_c) on a union would drop an item unrelated to K_c that shares a subclass with it (F-C01-3)"""
+        if len(t) < 2:
+            return False
+        for a in t:
+            if isinstance(a, tuple) and not self.h.is_sub(a[1], c) and not self.h.is_sub(c, a[1]):
+                if any(self.h.is_sub(k, a[1]) and self.h.is_sub(k, c) for k in range(len(self.h.classes))):
+                    return True
+        return False
+
     def narrow_cond(self, env):
         """(condition, env if true, env if false) for a random narrowable local, or None"""
         r = self.r
@@ -437,7 +507,7 @@ class Gen:
                         opts.append(("inst", x, c))
                 elif isinstance(a, tuple):
                     for c in self.h.subclasses(a[1]):
-                        if c != a[1] or len(t) > 1:
+                        if (c != a[1] or len(t) > 1) and not self.drops_inhabited(t, c):
                             opts.append(("inst", x, c))
         if not opts:
             return None
@@ -653,11 +723,18 @@ class Gen:
         self.stat("break" if jump == "brk" else "continue")
         carried = [x for x in env if x not in self.protected and not (self.self_cls is not None and x == 0)
                    and (len(self.decl[x]) > 1 or isinstance(self.decl[x][0], tuple))]
-        if carried and r.random() < 0.6:
+        if carried and r.random() < 0.7:
             # assign a local just before jumping: the loop head (continue) / the code after the loop (break)
-            # must account for the assigned type
-            x = r.choice(carried)
-            tb.append(("assign", x, self.expr(self.pick_subtype(self.decl[x]), et, 1)))
+            # must account for the assigned type — preferably the loop-carried local, with a type it does not
+            # get elsewhere in the loop
+            cv = getattr(self, "carried_var", None)
+            x = cv[0] if cv is not None and cv[0] in carried and r.random() < 0.8 else r.choice(carried)
+            t3 = self.pick_subtype(self.decl[x])
+            if cv is not None and cv[0] == x:
+                fresh = [(a,) for a in self.decl[x] if (a,) not in cv[1]]
+                if fresh:
+                    t3 = r.choice(fresh)
+            tb.append(("assign", x, self.expr(t3, et, 1)))
             self.stat("assign-before-jump")
             self.watch.append(x)
         return ("ite", cond, seq(tb + [(jump,)]), ("pass",)), ef
@@ -736,15 +813,17 @@ class Gen:
             # assigned something else at the end of the body — its type in the body is the fixpoint, not the entry type
             x = r.choice(carried)
             t1, t2 = self.pick_subtype(self.decl[x]), self.pick_subtype(self.decl[x])
+            self.carried_var = (x, [t1, t2])
             pre.append(("assign", x, self.expr(t1, env0, 1)))
             post.append(("assign", x, self.expr(t2, et, 1)))
             self.stat("loop-carried-local")
             head = self.uses(x, et[x], et)
         else:
             head = []
+            self.carried_var = None
         self.loop_depth += 1
         outer_watch, self.watch = self.watch, []
-        if r.random() < 0.35:
+        if r.random() < 0.5:
             j = self.jump_if(et, depth + 1)
             if j is not None:
                 head = head + [j[0]]
@@ -895,7 +974,7 @@ def all_bodies(p: Prog):
 
 
 PERTURBATIONS = ["drop-guard", "swap-lit", "widen-param", "swap-args", "ret-type", "attr-type", "none-arg", "drop-init",
-                 "narrow-override", "cond-drop-left"]
+                 "narrow-override", "cond-drop-left", "mi-conflict"]
 
 
 def perturb(p: Prog, rng, prefer: str | None = None):
@@ -1005,14 +1084,43 @@ def perturb(p: Prog, rng, prefer: str | None = None):
             for fd in all_bodies(q):
                 fd.body = map_stmt(fd.body, lambda e: map_expr(e, f), lambda s: s)
             return q, kind
+        if kind == "mi-conflict":
+            # two bases of one class define the same method incompatibly (different arity); a new function calls it
+            # through the second base's static type
+            sites = []
+            for c, cd in enumerate(q.classes):
+                if len(cd.bases) < 2:
+                    continue
+                b1, b2 = cd.bases[0], cd.bases[1]
+                side1 = q.classes[b1].mro
+                side2 = [k for k in q.classes[b2].mro if k not in side1]
+                for k1 in side1:
+                    for m, fd in q.classes[k1].methods:
+                        defined2 = any(m == m2 for k in q.classes[b2].mro for m2, _ in q.classes[k].methods)
+                        if not defined2 and side2 and not any(m == m2 for m2, _ in cd.methods):
+                            sites.append((c, b2, m, fd))
+            if not sites:
+                continue
+            c, b2, m, fd = rng.choice(sites)
+            ret = fd.ret if fd.ret in (NONE, INT, STR, BOOL) else NONE
+            body = {NONE: ("pass",), INT: ("ret", ("intLit", 0)), STR: ("ret", ("strLit", [])), BOOL: ("ret", ("boolLit", True))}[ret]
+            q.classes[b2].methods.append((m, Func(list(fd.params) + [INT], [], ret, body)))
+            h = Hier(q.classes)
+            g = Gen(rng)
+            g.h = h
+            args = [g.closed(t, None, 1) for t in fd.params] + [("intLit", 1)]
+            call = ("callM", ("var", 0), m, args)
+            q.funcs.append(Func([(C(b2),)], [], NONE, ("expr", call) if ret == NONE else ("expr", ("probe", 900001, call))))
+            q.extra_calls = [(len(q.funcs) - 1, [g.closed((C(c),), None, 2)])]
+            return q, kind
         if kind == "narrow-override":
             # an overriding method takes less than the method it overrides (argument types are contravariant)
             sites = []
             for c, cd in enumerate(q.classes):
-                if cd.base is None:
+                if not cd.bases:
                     continue
                 inherited = set()
-                for k in q.classes[cd.base].mro:
+                for k in cd.mro[1:]:
                     inherited |= {m for m, _ in q.classes[k].methods}
                 for m, fd in cd.methods:
                     for i, t in enumerate(fd.params):
